@@ -134,6 +134,8 @@ def run_units(pid, units, tier, seed, level, rule, assumptions, extra_cov=None, 
                 continue        # enough witnesses; further failing shards are only counted
             text = open(failfile).read()
             msg = ""
+            if failfile.endswith(".crash"):
+                msg = "the process crashed (signal / sanitizer abort, rc=%d) while executing this case: %s" % (rc, out.strip()[-600:])
             if os.path.exists(base + ".fail.msg"):
                 msg = open(base + ".fail.msg").read().strip()
             rp = save_replay(pid, text)
